@@ -50,9 +50,14 @@ func (this *NodesManager) processSnapshot(data []byte) error {
 		return err
 	}
 
-	for id, _ := range this.clusterConn.Nodes() {
-		if _, exists := nodes[id]; !exists && id != this.clusterConn.Id() {
-			this.clusterConn.RemoveNode(id)
+	// A snapshot that does not list this node was cut before this node joined: whatever the node
+	// learnt from the join handshake is newer than it (a member that joined in between may be the
+	// leader this node has to answer). Only a snapshot that knows this node says who has left.
+	if _, listsMe := nodes[this.clusterConn.Id()]; listsMe {
+		for id, _ := range this.clusterConn.Nodes() {
+			if _, exists := nodes[id]; !exists && id != this.clusterConn.Id() {
+				this.clusterConn.RemoveNode(id)
+			}
 		}
 	}
 	for id, address := range nodes {
